@@ -2709,6 +2709,8 @@ int x509_uri_as_distribution_point_from_der(const char **uri, size_t *urilen,
 		if (ret < 0) error_print();
 		return ret;
 	}
+	*uri = NULL;
+	*urilen = 0;
 	if (x509_uri_as_explicit_distribution_point_name_from_der(0, uri, urilen, &d, &dlen) < 0
 		|| x509_revoke_reason_flags_from_der(reasons, &d, &dlen) < 0
 		|| x509_general_names_from_der(crl_issuer, crl_issuer_len, &d, &dlen) < 0
